@@ -552,6 +552,41 @@ class World:
             except Exception as e:
                 log.append(['limit-mixin-scenario-failed', f'{type(e).__name__}: {e}'[:120]])
                 r.count('limit_mixin_scenarios_refused')
+        # definition order: a class is described the same way whether an unrelated class was defined before it or not - here a
+        # class whose plain parameter has the name another class uses for a limit of a predefined parameter
+        if rng.random() < 0.3:
+            C = self.C
+            self.uid += 1
+            lname = rng.choice(['target_max', 'target_min', 'value_max', 'target_limits'])
+            # (names no earlier program of this process has used: a process-wide table would remember them)
+            lname = rng.choice([lname, lname])
+            def plain(tag):
+                return type(f'Plain{tag}_{self.uid}', (C.Writable,), {lname: C.Parameter('an ordinary parameter', self.D.FloatRange(0, 50), readonly=False, default=5.0),
+                                                                       'write_target': lambda self, v: v, 'read_value': lambda self: 0, '__module__': __name__})
+            try:
+                first = plain('First')
+                s1 = json.loads(self.snap_class(first))
+                w1 = sorted(self.nodes.make_module(first, 'dfo1').accessiblename2attr)      # the names a client addresses
+                kw = {lname: C.Limit(), 'write_target': lambda self, v: v, 'read_value': lambda self: 0, '__module__': __name__}
+                classes['WithLimit'] = type(f'WithLimit_{self.uid}', (C.Writable,), kw)
+                log.append(['define', 'WithLimit', f'{lname} = Limit()'])
+                if not frame(('subclass', 'WithLimit'), 'WithLimit'):
+                    return
+                second = plain('Second')
+                s2 = json.loads(self.snap_class(second))
+                w2 = sorted(self.nodes.make_module(second, 'dfo2').accessiblename2attr)
+                r.count('definition_order_checks')
+                if w1 != w2:
+                    r.violation('C09/definition-order/wire-names-differ-after-an-unrelated-class', f'a class with a plain parameter {lname} is addressed as '
+                                f'{sorted(set(w1) ^ set(w2))} depending on whether an unrelated class with {lname} = Limit() was defined before it', {'program': log})
+                    return
+                if s1 != s2:
+                    diff = [n for n in s1['acc'] if s1['acc'][n] != s2['acc'].get(n)] or ['order/props']
+                    r.violation('C09/definition-order/class-described-differently-after-an-unrelated-class', f'a class with a plain parameter {lname} is described differently '
+                                f'once an unrelated class with {lname} = Limit() exists: {diff[:3]}: {[s1["acc"].get(diff[0]), s2["acc"].get(diff[0])]}'[:400], {'program': log})
+                    return
+            except Exception as e:
+                log.append(['definition-order-scenario-failed', f'{type(e).__name__}: {e}'[:120]])
         # controlled_by enum growth on one of two instances of the same class
         if rng.random() < 0.5:
             C = self.C
